@@ -107,8 +107,18 @@ def exec_merge(ex: Execution, sources: list[list[Any]], pair: bool) -> tuple[Any
 
 
 # ------------------------------------------------------------------------------- debounce
+class _Rec:
+    """a record that is sorted BY A KEY but cannot be ordered itself (a plain object, like a log event)"""
+
+    def __init__(self, key: int, n: int) -> None:
+        self.key, self.n = key, n
+
+    def __repr__(self) -> str:
+        return f"{self.key}#{self.n}"
+
+
 def exec_debounce(ex: Execution, keys: list[int], d: float, wmax: float, more: list[list[int]] | None = None,
-                  concurrent: bool = False) -> tuple[Any, list[Any]]:
+                  concurrent: bool = False, records: bool = False) -> tuple[Any, list[Any]]:
     """``more``: further streams in the same process (same loaded module) - one after the other, or (``concurrent``) all at
     once; every stream is judged on its own"""
     streams = [keys] + list(more or [])
@@ -140,6 +150,8 @@ def exec_debounce(ex: Execution, keys: list[int], d: float, wmax: float, more: l
             async def inner() -> Any:
                 for k, key in enumerate(ks):
                     await gate(f"{tag}item{k}")
+                    if records:
+                        key = _Rec(key, k)  # type: ignore[assignment]
                     rec["arrivals"].append(key)
                     # "strictly before the window closed": not in the same loop iteration as a timer firing
                     simultaneous = bool(e.h.trace) and "time" in e.h.trace[-1]
@@ -158,7 +170,8 @@ def exec_debounce(ex: Execution, keys: list[int], d: float, wmax: float, more: l
                 rec["deb_index"] = len(debs)  # the Debouncer this call is about to create
                 rec["opened_at"] = e.loop.vt
                 rec["close_at"] = e.loop.vt + d
-                async for x in mod.debounced_sorted_prefix(inner(), key=lambda x: x, debounce_seconds=d, max_window_seconds=wmax):
+                async for x in mod.debounced_sorted_prefix(inner(), key=(lambda x: x.key) if records else (lambda x: x),
+                                                           debounce_seconds=d, max_window_seconds=wmax):
                     rec["out"].append(x)
 
             rec["task"] = e.loop.create_task(consume())
@@ -185,11 +198,13 @@ def exec_debounce(ex: Execution, keys: list[int], d: float, wmax: float, more: l
             elif t.exception() is not None:
                 v.append(("debounce_raises", w, repr(t.exception())))
             else:
-                if sorted(out) != sorted(arrivals) or len(arrivals) != len(rec["keys"]):
+                kf = (lambda x: x.key) if records else (lambda x: x)
+                if sorted(map(id, out) if records else out) != sorted(map(id, arrivals) if records else arrivals) or len(arrivals) != len(rec["keys"]):
                     v.append(("item_lost_or_duplicated", w, f"arrived {arrivals}, yielded {out}"))
                 else:
                     k = len(before_close)
-                    ok = any(out == sorted(arrivals[:m]) + arrivals[m:] for m in range(k, len(arrivals) + 1))
+                    ko, ka = [kf(x) for x in out], [kf(x) for x in arrivals]
+                    ok = any(ko == sorted(ka[:m]) + ka[m:] for m in range(k, len(arrivals) + 1))
                     if not ok:
                         v.append(("later_item_before_sorted_burst", w,
                                   f"stream {si}: arrivals {arrivals} ({k} of them before the window closed), yielded {out}: not "
@@ -221,6 +236,11 @@ def programs(tier: str) -> list[Program]:
         ps.append(Program(f"debounce(keys={keys})", {"keys": keys},
                           (lambda ex, keys=keys: exec_debounce(ex, keys, 1.0, 2.5)),
                           max_dev=(None if len(keys) <= 3 else (4 if q else 6))))
+    # records sorted by a key, with equal keys in the burst (the records themselves cannot be compared)
+    for keys in ([2, 2, 1], [3, 1, 3, 1]) + (() if q else ([1, 1, 1], [2, 1, 2, 1, 2])):
+        ps.append(Program(f"debounce(records;keys={keys})", {"keys": keys, "records": True},
+                          (lambda ex, keys=keys: exec_debounce(ex, keys, 1.0, 2.5, records=True)),
+                          max_dev=(None if len(keys) <= 3 else (4 if q else 6))))
     # several streams in one process: one after the other, and overlapping
     for first, more, conc in (([2, 1], [[3, 1, 2]], False), ([2, 1], [[2, 1]], True)) + (() if q else (([3, 1, 2], [[2, 1], [3, 2, 1]], False),
                                                                                                     ([3, 1, 2], [[2, 1]], True))):
@@ -233,7 +253,7 @@ def programs(tier: str) -> list[Program]:
 RULE = ("merge_generators over 1-3 sources with <=3 items each and an optional failing source x all release orders, "
         "simultaneous completions and all iteration orders of the done set; debounced_sorted_prefix over 2-5 items "
         "released at explorer-chosen points relative to the debounce / max-window timers (including the same loop "
-        "iteration as the window closing, both orders), also two or three streams in one process, one after the other or overlapping; non-trivial = at least one deviation from the default schedule")
+        "iteration as the window closing, both orders), also records with equal keys that cannot be compared themselves, and two or three streams in one process, one after the other or overlapping; non-trivial = at least one deviation from the default schedule")
 
 
 def run(tier: str, seed: int) -> Any:
